@@ -278,6 +278,36 @@ def run_replays(mod, pid: str, ffile: Dict[str, Any], lines: List[str]):
 # main
 
 
+def _start_cover():
+    """Diagnostic only (tools/coverage_report.py): with PBT_COVER=<dir> a worker records which lines of physt it
+    executed (sys.monitoring, every line reported once).  Never used by a registered command."""
+    out = os.environ.get("PBT_COVER")
+    if not out or not hasattr(sys, "monitoring"):
+        return None
+    mon = sys.monitoring
+    root = os.path.join(src_root(), "physt")
+    hit = set()
+
+    def on_line(code, line):
+        if code.co_filename.startswith(root):
+            hit.add((code.co_filename[len(root) + 1:], line))
+        return mon.DISABLE
+
+    mon.use_tool_id(mon.COVERAGE_ID, "pbt")
+    mon.register_callback(mon.COVERAGE_ID, mon.events.LINE, on_line)
+    mon.set_events(mon.COVERAGE_ID, mon.events.LINE)
+    return out, hit
+
+
+def _stop_cover(cover, tag):
+    if not cover:
+        return
+    out, hit = cover
+    os.makedirs(out, exist_ok=True)
+    with open(os.path.join(out, tag + ".json"), "w", encoding="utf-8") as f:
+        json.dump(sorted(hit), f)
+
+
 def main(argv=None) -> int:
     ap = argparse.ArgumentParser()
     ap.add_argument("pid")
@@ -305,6 +335,7 @@ def main(argv=None) -> int:
 
     # ---- worker mode
     if args.shard is not None:
+        cover = _start_cover()
         try:
             res = run_shard(mod, pid, args.tier, seed, args.shard, args.nshards,
                             [a for a in args.active.split(",") if a], only, args.scale)
@@ -312,6 +343,7 @@ def main(argv=None) -> int:
             res = {"subs": {}, "violations": [], "harness_errors": [f"shard crashed: {type(exc).__name__}: {exc}\n{traceback.format_exc()}"]}
         with open(args.partial, "w", encoding="utf-8") as f:
             f.write(canon(res))
+        _stop_cover(cover, f"{pid}-{args.shard}")
         return 0
 
     ffile = load_findings_file()
